@@ -171,8 +171,8 @@ def check_pair(col, fam, a, b, sa, strict=None):
     if strict:
         rel = relation(a, b)[0].split("+")[0]
         hv = ([x[2:] for x in cb if x.startswith("h:")] or [""])[0]
-        if hv != a.host and hv.endswith("." + a.host):
-            rel += " | v's first host stem is a multi-label suffix that swallows u's whole host (u's host has %d label(s))" % (a.host.count(".") + 1)
+        if "." in hv and ("." + hv).endswith("." + a.host):
+            rel += " | v's first host stem is a multi-label suffix that covers u's whole host (u's host has %d label(s))" % (a.host.count(".") + 1)
         col.count("ancestor-stems-prefix")
         if not pre:
             bad("ancestor-stems-prefix", F_STEMS, {"stems_u": ca, "stems_v": cb},
